@@ -157,7 +157,13 @@ def dhtv_restores_consistency(d, ctx):
     rng = d.rng()
     cfg = _dhtv_config(d, F)
     if 'default' in cfg:
-        aligner = pa.DHTVPermutationAlignment.from_stft_size(cfg['default'])
+        # "the shipped 512 and 1024 defaults": they have to exist and to fit
+        aligner = ctx.lib(pa.DHTVPermutationAlignment.from_stft_size, cfg['default'],
+                          clause='shipped-default-configuration-raises')
+        require(aligner.stft_size == cfg['default'] and
+                2 * (F - 1) == aligner.stft_size,
+                'shipped-default-configuration-has-another-stft-size',
+                f'{aligner.stft_size} for from_stft_size({cfg["default"]})')
     else:
         aligner = pa.DHTVPermutationAlignment(**cfg)
     plan = aligner.alignment_plan
